@@ -12,23 +12,59 @@ def userLockObj : Nat := 1
     `cv.pop` / `cv.popall` must be followed immediately by the agent call of the same thread
     and are merged with it.  A spinlock event on the user-lock object is a user-lock event
     (`std::unique_lock<spinlock>` as the user lock). -/
-partial def toEvents : List Line → List (Option Ev × String) → List (Option Ev × String)
+def stopBitSet (a : Int) : Bool :=
+  let w : Nat := if a < 0 then (a + 18446744073709551616).toNat else a.toNat
+  (w / 2147483648) % 2 == 1
+
+/-- Stop-token interface (follow-up C07s): of the `stop.*` hook lines of `stop_token.cpp` only
+    those that change the abstract stop state of `Model/CV.lean` are events (see the table in
+    the model header); the lock loops (`stop.load/cas/casfail/reload/held`) and the pure
+    points are stutter, except that a registration (`mode 2`) which observes the stop bit is
+    `stSeen`.  Callback objects (`obj` of `stop.push/deq/fin`) are mapped to the thread that
+    pushed them (`own`). -/
+partial def toEvents (own : List (Nat × Nat)) : List Line → List (Option Ev × String) → List (Option Ev × String)
   | [], acc => acc.reverse
   | l :: rest, acc =>
     let t := l.tid
-    let push (e : Ev) := toEvents rest ((some e, l.raw) :: acc)
-    let bad (_ : Unit) := toEvents rest ((none, l.raw) :: acc)
+    let go := toEvents own
+    let push (e : Ev) := go rest ((some e, l.raw) :: acc)
+    let bad (_ : Unit) := go rest ((none, l.raw) :: acc)
+    let owner (o : Nat) : Option Nat := (own.find? (fun p => p.1 == o)).map (·.2)
     let merge (mk : Nat → Bool → Ev) :=
       match rest with
       | r :: rest' =>
         if r.tid == t && r.site == "ag.resume" then
-          toEvents rest' ((some (mk r.a.toNat false), l.raw ++ " + " ++ r.raw) :: acc)
+          go rest' ((some (mk r.a.toNat false), l.raw ++ " + " ++ r.raw) :: acc)
         else if r.tid == t && r.site == "ag.resume.dropped" then
-          toEvents rest' ((some (mk r.a.toNat true), l.raw ++ " + " ++ r.raw) :: acc)
+          go rest' ((some (mk r.a.toNat true), l.raw ++ " + " ++ r.raw) :: acc)
         else bad ()
       | [] => bad ()
     match l.site with
-    | "sl.lock" | "ag.yield" | "ul.lock" | "ul.spin" => toEvents rest acc
+    | "sl.lock" | "ag.yield" | "ul.lock" | "ul.spin" => go rest acc
+    | "stop.cas" | "stop.held" | "stop.rm_check" | "stop.pre_exec" | "stop.post_exec" => go rest acc
+    | "stop.load" | "stop.casfail" | "stop.reload" =>
+      if l.b == 2 && stopBitSet l.a then push (.stSeen t) else go rest acc
+    | "inv.swaitp" => push (.inv t .swait)
+    | "inv.stop" => push (.inv t .stop)
+    | "cva.stop0" => push (.stop0 t (l.a != 0))
+    | "cva.stop1" => push (.stop1 t (l.a != 0))
+    | "stop.acq" => if l.b < 0 then bad () else push (.stAcq t l.b.toNat)
+    | "stop.push" =>
+      toEvents ((l.obj, t) :: own.filter (fun p => p.1 != l.obj)) rest
+        ((some (.stPush t (l.a != 0)), l.raw) :: acc)
+    | "stop.deq" =>
+      match owner l.obj with
+      | some c => push (.stDeq t c (l.a != 0))
+      | none => bad ()
+    | "stop.fin" =>
+      match owner l.obj with
+      | some c => push (.stFin t c (l.a != 0))
+      | none => bad ()
+    | "stop.infin" => push (.stInFin t)
+    | "stop.unlink" => push (.stUnlink t (l.a != 0))
+    | "stop.self" => push (.stSelf t (l.a != 0))
+    | "stop.waited" => push (.stWaited t)
+    | "stop.rsdone" => push (.stRsDone t)
     | "inv.lock" => push (.inv t .lock)
     | "inv.unlock" => push (.inv t .unlock)
     | "inv.set" => push (.inv t (.set (l.a != 0)))
@@ -88,9 +124,15 @@ structure Mon where
   parked : Nat → Bool := fun _ => false         -- inside ag.suspend without a later ag.woke
   owed : Nat → List Nat := fun _ => []          -- notifier ↦ waiters its notify_all must wake
   viol : List String := []
+  -- stop-token waits
+  stopWon : Bool := false                       -- some request_stop set the stop bit (`stop.acq _ 1`)
+  stopRet : Bool := false                       -- a request_stop call has returned
+  cbOwn : List (Nat × Nat) := []                -- callback object ↦ thread that registered it
+  linked : Nat → Bool := fun _ => false         -- the thread's callback is in the list
+  inHand : Nat → Bool := fun _ => false         -- … dequeued by request_stop, finished store not yet done
 
 def isWaitOp (s : String) : Bool :=
-  s == "inv.wait" || s == "inv.waitp" || s == "inv.twait" || s == "inv.twaitp"
+  s == "inv.wait" || s == "inv.waitp" || s == "inv.twait" || s == "inv.twaitp" || s == "inv.swaitp"
 
 def uAcq (m : Mon) (t : Nat) : Mon :=
   let m := match m.uOwner with
@@ -106,9 +148,9 @@ def uRel (m : Mon) (t : Nat) : Mon :=
 def monStep (n : Nat) (m : Mon) (l : Line) : Mon :=
   let t := l.tid
   match l.site with
-  | "inv.lock" | "inv.unlock" | "inv.set" | "inv.n1" | "inv.nall" =>
+  | "inv.lock" | "inv.unlock" | "inv.set" | "inv.n1" | "inv.nall" | "inv.stop" =>
     { m with curOp := upd m.curOp t l.site, inWait := upd m.inWait t false }
-  | "inv.wait" | "inv.waitp" | "inv.twait" | "inv.twaitp" =>
+  | "inv.wait" | "inv.waitp" | "inv.twait" | "inv.twaitp" | "inv.swaitp" =>
     let m := if m.uOwner != some t then
       { m with viol := s!"thread {t} called wait without owning the user lock (harness error)" :: m.viol } else m
     { m with curOp := upd m.curOp t l.site, inWait := upd m.inWait t true,
@@ -147,8 +189,29 @@ def monStep (n : Nat) (m : Mon) (l : Line) : Mon :=
       [s!"thread {t}: timed wait reported timeout although it was notified before it re-examined its entry"] else []
     let v5 := if op == "inv.twait" && r != 0 && r != 1 then
       [s!"thread {t}: timed wait returned cv_status::error"] else []
-    { m with viol := v0 ++ v1 ++ v2 ++ v3 ++ v4 ++ v5 ++ m.viol, inWait := upd m.inWait t false,
-             owed := upd m.owed t [] }
+    let v6 := if op == "inv.swaitp" && (r != 0) != m.flag then
+      [s!"thread {t}: stop-token wait returned {r} but the predicate is {m.flag}"] else []
+    let v7 := if op == "inv.swaitp" && r == 0 && !m.stopWon then
+      [s!"thread {t}: stop-token wait returned false although stop was never requested"] else []
+    let v8 := if op == "inv.swaitp" && m.linked t then
+      [s!"thread {t}: stop-token wait returned with its stop callback still registered (dangling callback)"] else []
+    let v9 := if op == "inv.swaitp" && m.inHand t then
+      [s!"thread {t}: stop-token wait returned while request_stop was still running its stop callback (dangling callback)"] else []
+    { m with viol := v0 ++ v1 ++ v2 ++ v3 ++ v4 ++ v5 ++ v6 ++ v7 ++ v8 ++ v9 ++ m.viol, inWait := upd m.inWait t false,
+             owed := upd m.owed t [], stopRet := m.stopRet || op == "inv.stop" }
+  | "stop.acq" => if l.b == 1 then { m with stopWon := true } else m
+  | "stop.push" =>
+    { m with cbOwn := (l.obj, t) :: m.cbOwn.filter (fun p => p.1 != l.obj), linked := upd m.linked t true,
+             inHand := upd m.inHand t false }
+  | "stop.unlink" => if l.a != 0 then { m with linked := upd m.linked t false } else m
+  | "stop.deq" =>
+    match (m.cbOwn.find? (fun p => p.1 == l.obj)).map (·.2) with
+    | some c => { m with linked := upd m.linked c false, inHand := upd m.inHand c true }
+    | none => { m with viol := s!"request_stop dequeued a callback object that was never registered" :: m.viol }
+  | "stop.fin" =>
+    match (m.cbOwn.find? (fun p => p.1 == l.obj)).map (·.2) with
+    | some c => { m with inHand := upd m.inHand c false }
+    | none => m
   | "exc" => { m with viol := s!"thread {t}: exception escaped from {m.curOp t}" :: m.viol }
   | _ => m
 
@@ -159,6 +222,10 @@ def monitors (c : Case) (ls : List Line) (n : Nat) : List String :=
       (List.range n).filterMap (fun t =>
         if m.parked t && m.resumedSinceEnq t then
           some s!"thread {t} is parked in wait at quiescence although a notifier resumed it (lost wake-up)"
+        else none) ++
+      (List.range n).filterMap (fun t =>
+        if m.parked t && m.curOp t == "inv.swaitp" && m.stopRet then
+          some s!"thread {t} is parked in a stop-token wait at quiescence although request_stop has returned (lost stop request)"
         else none)
     else []
   let stv := if c.status == "ok" || c.status == "deadlock" then [] else [s!"run ended with status '{c.status}'"]
@@ -169,7 +236,7 @@ def runCase (c : Case) : String :=
   let parsed := c.lines.map parseLine
   if parsed.any Option.isNone then s!"case {c.id} reject 0 malformed-line" else
   let ls := parsed.filterMap id
-  let evs := toEvents ls []
+  let evs := toEvents [] ls []
   let mon := monitors c ls n
   let monS := if mon.isEmpty then "monitors ok" else "monitors FAIL: " ++ " | ".intercalate mon
   match accept (CV.init n (c.getNat "flag" != 0)) evs 0 with
